@@ -63,6 +63,25 @@ inline DocCase decode_doc(Src &s, const DocOpts &o) {
     case DM_MUT: {
         c.tree = gen_tree(s, cfg, c.array_root);
         c.have_tree = true;
+        if (cfg.big && (fl & 0x0c) == 0x0c) {
+            // alignment class: a leading string/bytes value sized so that the element after it starts at (or up to 3 bytes
+            // before) offset 2^8, 2^15, 2^16-1, 2^16 or 2^16+1 - positions where truncated offsets and counters go wrong
+            static const size_t targets[] = {256, 32768, 65535, 65536, 65537};
+            size_t T = targets[s.u8() % 5] - (s.u8() % 4);
+            bool named = c.tree.k == ref::K_OBJ;
+            bool ok = !named || c.tree.c.empty() || !c.tree.c[0].name.empty();
+            size_t head = 1 + (named ? 2 : 0);
+            if (ok && T > head + 6) {
+                size_t L = T - head - 2;                 // try a 1-byte length prefix ...
+                if (L > 127) L = T - head - 3;           // ... then 2-byte ...
+                if (L > 32767) L = T - head - 5;         // ... then 4-byte
+                Value pad;
+                pad.k = (fl & 2) ? ref::K_BYT : ref::K_STR;
+                pad.has_name = named;
+                pad.s.assign(L, (uint8_t)'p');
+                c.tree.c.insert(c.tree.c.begin(), pad);
+            }
+        }
         c.doc = ref::encode(c.tree);
         if (c.mode == DM_MUT) {
             unsigned n = 1 + s.u8() % 3;
